@@ -174,6 +174,42 @@ def rule_r3(facts, rep, rid="C17-R3"):
         rep.violation(rid, gen.def_ + "|constant-depth", "generate command squashes with a non-constant or large depth: %s" % vals, gen.loc)
 
 
+def rule_r5(facts, rep, rid="C17-R5"):
+    """A squashed note is rendered relative to its own directory: the links it keeps (depth exhausted, missing targets) must still resolve."""
+    from .common import ctx, loc
+    n = 0
+    for f in facts.body_fns():
+        if f.crate not in ("liwe", "iwes", "iwe") or f.kind == "closure" or "::tests::" in f.def_:
+            continue
+        c = None
+        counts = 0
+        for x in fb.walk(f.body):
+            if x.get("k") == "mcall" and x["name"] == "to_markdown" and x["args"]:
+                # receiver chain starts at <ctx>.squash(&K, d)
+                r = x["recv"]
+                sq = None
+                while r is not None and r.get("k") == "mcall":
+                    if r["name"] == "squash":
+                        sq = r
+                        break
+                    r = r["recv"]
+                if sq is None:
+                    continue
+                c = c or ctx(f)
+                rep.saw_fn(f)
+                n += 1
+                kc = fb.show_canon(f, sq["args"][0]).lstrip("&")
+                pc = fb.show_canon(f, x["args"][0]).lstrip("&")
+                key = "%s|squash-render|%d" % (f.def_, counts)
+                counts += 1
+                if pc == kc + ".parent()":
+                    rep.ok(rid, key, "squash(&K, d) rendered with K.parent()", loc(f, x))
+                else:
+                    rep.violation(rid, key, "the squashed note `%s` is rendered relative to `%s`, not to its own directory: the links the expansion keeps (depth used up, missing notes) are "
+                                  "rewritten against the wrong base and point at other notes" % (fb.show(sq["args"][0]), fb.show(x["args"][0])), loc(f, x))
+    rep.floor(rid, "renderings of squashed notes", n, 2)
+
+
 def run(facts, rep, tier):
     rep.rule("C17-R1", "Every recursive call of Tree::squash_from_pointer that crosses into another note (pointer derived from to_key) passes "
              "`depth - c` (c >= 1) and lies in a region guarded by a positive-depth test (enumerated idioms); structural calls pass depth "
@@ -192,3 +228,5 @@ def run(facts, rep, tier):
         rep.violation("C17-R4", "TreeIter::child|total-on-existing-nodes", fails[0])
     else:
         rep.ok("C17-R4", "TreeIter::child|total-on-existing-nodes", "child() is Some(..) filtered only on self.node().is_some()")
+    rep.rule("C17-R5", "Every squash(&K, d) whose tree is rendered with to_markdown(&P, ..) has P = K.parent() (the kept links must resolve from the squashed note's own directory).")
+    rule_r5(facts, rep)
